@@ -57,6 +57,13 @@ CHECKS = {
                 text="class-balanced: chunk lengths sum to samples_per_class per class (invariant + termination), weighted: no repeats / valid indices from the multinomial axiom, "
                      "length modes of the semi sampler; evenness, pool exhaustion and alternation only bounded (stated in evidence)",
                 note=TRUST),
+    "C14": dict(level="proof", technique="contract-based deductive verification of the crop / pad / erase / segmentation-pair / norm transforms over an abstract image (width, height, channels, per-channel affine value map; torchvision functional ops as assumed contracts that oblige their box / padding arguments and record them in ghost registers; AST->SMT, z3+cvc5, nonlinear real arithmetic for the aspect-ratio fallback) + frame obligations on the einops patterns + bounded image-level stand-in (tensor and PIL)",
+                text="get_params of KDRandomCrop / KDTwoRandomCrop / KDRandomResizedCrop / KDSemsegRandomCrop return a box inside the image they were computed for, with the requested size, for all image and target sizes; "
+                     "__call__ returns the configured output size and the ctx entries equal the arguments of the applied crop; erase regions lie inside the tensor; every semseg transform passes identical recorded arguments to image and mask; "
+                     "KDSemsegPad pads exactly the centred deficit; multi-crop windows lie inside the image; normalise / denormalise compose to the identity affine map per channel on reals; patchify / unpatchify patterns are mirror images. "
+                     "Pixel content, PIL inputs, interpolation, spec-augment band widths, patch shuffles, tiling coverage, KDSimpleRandomCrop and float round-off are bounded only",
+                note=TRUST + "; torchvision functional crop / resized_crop / pad / resize / hflip / normalize / get_image_size and einops.rearrange enter as assumed contracts; round() as an integer within 1/2; exp > 0, sqrt >= 0 as the only facts about the transcendental functions; "
+                             "domain assumption: KDRandomResizedCrop's ratio range is positive and contains 1"),
     "C15": dict(level="proof", technique="relational (two-run) contract verification of every _scale_strength on reals (AST->SMT, z3+cvc5); ghost call maps for forwarding; bounded zoo",
                 text="each leaf scaling function is executed twice symbolically on receivers that agree only on the constructed values: factor 1 restores, factor 0 collapses to the identity, "
                      "monotone in between, independent of the previous state (no compounding); forwards reach every member with the unchanged factor (loop invariant over the member list); "
